@@ -27,6 +27,9 @@ EXC = {"ValueError": "value", "KeyError": "key", "TypeError": "type", "Assertion
        "IndexError": "index"}
 
 
+CLS = {"Shape": "shape", "AngleInterval": "angleInterval", "Interval": "interval"}
+
+
 def fld(name: str) -> str:
     if name in FLDS:
         return f"CR.Goal.Fld.{name}"
@@ -103,7 +106,7 @@ class Tr8(Tr):
         t = self.t
         if isinstance(n, ast.Constant) and isinstance(n.value, str):
             return fld(n.value)
-        if isinstance(n, ast.Set):
+        if isinstance(n, (ast.Set, ast.List)):
             return "[" + ", ".join(self.e(x) for x in n.elts) + "]"
         if isinstance(n, ast.Attribute) and self.dotted(n) in t.names:
             return t.names[self.dotted(n)]
@@ -138,6 +141,11 @@ class Tr8(Tr):
         dotted = self.dotted(f)
         if n.keywords and not (dotted == "CustomState"):
             raise Unsupported(f"keyword arguments in call {dotted}")
+        if dotted == "getattr" and len(n.args) == 2 and self.typeof(n.args[0]) == "RawG":
+            return f"(← CR.PyG.rawGet {self.e(n.args[0])} {self.e(n.args[1])})"
+        if dotted == "isinstance" and len(n.args) == 2 and self.dotted(n.args[0]) not in t.types \
+                and self.dotted(n.args[1]) in CLS:
+            return f"(CR.PyG.isInst {self.e(n.args[0])} CR.Goal.Cls.{CLS[self.dotted(n.args[1])]})"
         if isinstance(f, ast.Attribute) and f.attr == "issubset" and len(n.args) == 1:
             return f"(CR.PyG.issubset {self.e(f.value)} {self.e(n.args[0])})"
         if dotted in ("copy.deepcopy", "list", "deepcopy") and len(n.args) == 1:
@@ -194,8 +202,13 @@ class Tr8(Tr):
         pad = "  " * ind
         t = self.t
         if not stmts:
+            if t.ret == "Unit":
+                return f"{pad}return ()"
             raise Unsupported("path without return")
         s, rest = stmts[0], list(stmts[1:])
+        if isinstance(s, ast.Assign) and len(s.targets) == 1 and isinstance(s.targets[0], ast.Attribute) and not rest \
+                and self.dotted(s.targets[0]) == getattr(t, "ret_attr", None):
+            return f"{pad}return {self.e(s.value)}"          # the function's effect: the value stored in that attribute
         if isinstance(s, Recurse):
             return pad + s.text
         if isinstance(s, ast.Expr) and isinstance(s.value, ast.Constant):
@@ -362,9 +375,7 @@ class Tr8(Tr):
         outer_aux = self.aux
         self.aux = []
         self.scope = set(saved)
-        nil = self.block(rest, 2) if rest else None
-        if nil is None:
-            raise Unsupported("function ends with a loop")
+        nil = self.block(rest, 2)
         self.scope = set(saved) | set(tnames)
         rec = f"{lname} {pass_names} {' '.join(self.local(v) for v in cvars)} rest_".replace("  ", " ")
         cons = self.block(body + [Recurse(rec)], 2)
@@ -386,9 +397,11 @@ class Tr8(Tr):
         return "".join(a + "\n" for a in self.aux) + doc + head
 
 
-def mk(name, file, func, cls, params, ret, loop_elems=(), **k):
+def mk(name, file, func, cls, params, ret, loop_elems=(), ret_attr=None, **k):
     t = T8(name, file, func, cls, params, ret, **k)
     t.loop_elems = list(loop_elems)
+    t.ret_attr = ret_attr
+    t.ret_self = False
     return t
 
 
@@ -433,6 +446,16 @@ def targets():
                   "state.has_value": ("CR.PyG.sHasValue state", False),
                   "goal_state.position.contains_point": ("CR.PyG.containsPoint goal_state.pos", True)},
            doc="self.state_list is the parameter goals; goal attributes are validated Interval / AngleInterval / Shape objects"),
+        mk("GoalRegion_validate_goal_state", G, "_validate_goal_state", "GoalRegion", [("state", "state : CR.Goal.RawG")], "Unit",
+           loop_elems=["CR.Goal.Fld"], local_types={"valid_fields": "List CR.Goal.Fld"}, types={"state": "RawG"},
+           attrs={("state", "used_attributes"): "(CR.PyG.rawUsed state)"},
+           doc="the state is the list of its attributes with the class of each value (None = none)"),
+        mk("GoalRegion_set_state_list", G, "state_list", "GoalRegion", [("state_list", "state_list : List CR.Goal.RawG")],
+           "List CR.Goal.RawG", loop_elems=["CR.Goal.RawG"], setter=True, ret_attr="self._state_list",
+           calls={"self._validate_goal_state": ("GoalRegion_validate_goal_state", True, "unit"),
+                  "cls._validate_goal_state": ("GoalRegion_validate_goal_state", True, "unit"),
+                  "GoalRegion._validate_goal_state": ("GoalRegion_validate_goal_state", True, "unit")},
+           doc="property setter; the result is the list stored in self._state_list"),
         mk("PlanningProblem_goal_reached", P, "goal_reached", "PlanningProblem",
            [FN, TE, (None, "goals : List CR.Goal.GState"), ("trajectory", "trajectory : List CR.Goal.St")], "Bool × Int",
            loop_elems=["Nat × CR.Goal.St"],
